@@ -202,8 +202,107 @@ func (o *c05RObj) build() *schedulingv1alpha1.Reservation {
 type c05Pod struct {
 	uid   int
 	empty bool
-	req   [c05D]int64
+	req   [c05D]int64 // the pod's TOTAL request per dimension (containers + spec.overhead); -1 = key absent everywhere
 	split bool
+	ovh   [c05D]int64 // round 9: the part of req that is declared as spec.overhead (RuntimeClass overhead); 0 = none
+}
+
+// round 9: the request of a pod read from the DECLARED object, from scratch (API documentation of
+// PodSpec: the effective request is max(sum of the containers, largest init container) + spec.overhead);
+// no helper of the implementation is involved.  This is "the pod's request" of the property statement:
+// it is what the op lines hand to the model and what the oracles sum up.
+func c05DeclaredReq(pod *corev1.Pod) (out [c05D]int64) {
+	for d := 0; d < c05D; d++ {
+		var sum, ini int64
+		for i := range pod.Spec.Containers {
+			sum += c05Val(d, pod.Spec.Containers[i].Resources.Requests)
+		}
+		for i := range pod.Spec.InitContainers {
+			if v := c05Val(d, pod.Spec.InitContainers[i].Resources.Requests); v > ini {
+				ini = v
+			}
+		}
+		if ini > sum {
+			sum = ini
+		}
+		out[d] = sum + c05Val(d, pod.Spec.Overhead)
+	}
+	return out
+}
+
+// every version of every pod object the harness declared in the current case, by pod uid
+var c05Decl = struct {
+	h    *vHarness
+	cse  int
+	vers map[int][][c05D]int64
+}{}
+
+func c05DeclReset(h *vHarness) {
+	c05Decl.h, c05Decl.cse, c05Decl.vers = h, h.curCase, map[int][][c05D]int64{}
+}
+
+func c05Declare(uid int, v [c05D]int64) {
+	if c05Decl.vers == nil {
+		c05Decl.vers = map[int][][c05D]int64{}
+	}
+	for _, w := range c05Decl.vers[uid] {
+		if w == v {
+			return
+		}
+	}
+	c05Decl.vers[uid] = append(c05Decl.vers[uid], v)
+}
+
+// the declared request of the assigned pod `uid` whose recorded requests are rec: the declared version
+// the record agrees with, else the latest declared version (ok=false: the record is not the request of
+// any version of the pod); known=false: the pod was not built by c05Pod.build in this case
+func c05DeclaredFor(h *vHarness, uid int, rec [c05D]int64) (v [c05D]int64, ok, known bool) {
+	if c05Decl.h != h || c05Decl.cse != h.curCase {
+		return rec, true, false
+	}
+	vs := c05Decl.vers[uid]
+	if len(vs) == 0 {
+		return rec, true, false
+	}
+	for _, w := range vs {
+		if w == rec {
+			return w, true, true
+		}
+	}
+	return vs[len(vs)-1], false, true
+}
+
+func c05RecordedReq(pr *frameworkext.PodRequirement) (rec [c05D]int64) {
+	for d := 0; d < c05D; d++ {
+		rec[d] = c05Val(d, pr.Requests)
+	}
+	return rec
+}
+
+// overhead for ~30% of the pods: cpu and/or memory (rarely the extended resource), small amounts, carved
+// out of the total request (so the distribution of totals is what it was); sometimes the whole amount of a
+// small dimension is overhead (then no container declares the key)
+func c05GenOvh(r *vRand, req [c05D]int64) (ovh [c05D]int64) {
+	if !r.Chance(3, 10) {
+		return ovh
+	}
+	caps := [c05D]int64{400, 1 << 17, 1}
+	which := r.Intn(7) // 0,1,2: cpu  3,4: memory  5: both  6: all three
+	for d := 0; d < c05D; d++ {
+		pick := (d == 0 && (which <= 2 || which >= 5)) || (d == 1 && which >= 3) || (d == 2 && which == 6)
+		if !pick || req[d] <= 0 {
+			continue
+		}
+		m := req[d]
+		if m > caps[d] {
+			m = caps[d]
+		}
+		ovh[d] = 1 + r.Int63n(m)
+		if req[d] <= 4*caps[d] && r.Chance(1, 4) {
+			ovh[d] = req[d]
+		}
+	}
+	return ovh
 }
 
 func (p *c05Pod) line() string {
@@ -211,21 +310,51 @@ func (p *c05Pod) line() string {
 }
 
 func (p *c05Pod) build() *corev1.Pod {
+	pod := p.buildRaw()
+	decl := c05DeclaredReq(pod)
+	for d := 0; d < c05D; d++ {
+		want := p.req[d]
+		if want < 0 || p.empty {
+			want = 0
+		}
+		if decl[d] != want {
+			panic(fmt.Sprintf("C05 harness bug: pod %d dim %d declares %d, op line says %d", p.uid, d, decl[d], want))
+		}
+	}
+	c05Declare(p.uid, decl)
+	return pod
+}
+
+func (p *c05Pod) buildRaw() *corev1.Pod {
 	pod := &corev1.Pod{ObjectMeta: metav1.ObjectMeta{Name: "p" + strconv.Itoa(p.uid), Namespace: "default", UID: types.UID(strconv.Itoa(p.uid))}}
 	if p.empty {
 		pod.Spec.Containers = []corev1.Container{{Name: "c"}}
 		return pod
 	}
+	// containers declare req - ovh; a dimension that is overhead only is declared by no container
+	creq := p.req
+	for d := 0; d < c05D; d++ {
+		if p.ovh[d] > 0 {
+			if pod.Spec.Overhead == nil {
+				pod.Spec.Overhead = corev1.ResourceList{}
+			}
+			pod.Spec.Overhead[c05Names[d]] = c05Q(d, p.ovh[d])
+			creq[d] = p.req[d] - p.ovh[d]
+			if creq[d] <= 0 {
+				creq[d] = -1
+			}
+		}
+	}
 	if p.split {
 		var a, b [c05D]int64
 		for d := 0; d < c05D; d++ {
-			a[d] = p.req[d] / 3
-			b[d] = p.req[d] - a[d]
+			a[d] = creq[d] / 3
+			b[d] = creq[d] - a[d]
 		}
 		// every declared key (also a zero one) stays declared in the first container
 		la, lb := corev1.ResourceList{}, corev1.ResourceList{}
 		for d := 0; d < c05D; d++ {
-			if p.req[d] >= 0 {
+			if creq[d] >= 0 {
 				la[c05Names[d]] = c05Q(d, a[d])
 				lb[c05Names[d]] = c05Q(d, b[d])
 			}
@@ -234,7 +363,7 @@ func (p *c05Pod) build() *corev1.Pod {
 			{Name: "b", Resources: corev1.ResourceRequirements{Requests: lb}}}
 		return pod
 	}
-	pod.Spec.Containers = []corev1.Container{{Name: "c", Resources: corev1.ResourceRequirements{Requests: c05List(p.req, -1)}}}
+	pod.Spec.Containers = []corev1.Container{{Name: "c", Resources: corev1.ResourceRequirements{Requests: c05List(creq, -1)}}}
 	return pod
 }
 
@@ -330,12 +459,28 @@ func c05DumpAndCheck(h *vHarness, cache *reservationCache, objs map[int]*c05RObj
 		}
 		h.Obs("i %s", vInts(f))
 
-		// ORACLE ledger: Allocated == sum over the assigned pods of their requests in the reserved dimensions
+		// ORACLE ledger: Allocated == sum over the assigned pods of their requests in the reserved dimensions.
+		// round 9: "their requests" = the request of the DECLARED pod object (containers + spec.overhead,
+		// c05DeclaredReq), not what the implementation's helper recorded: the record of an assigned pod must be
+		// the declared request of a version of that pod, and the sum is taken over the declared requests
+		decl := map[types.UID][c05D]int64{}
+		for pu, pr := range ri.AssignedPods {
+			rec := c05RecordedReq(pr)
+			v, ok, known := c05DeclaredFor(h, c05UID(pu), rec)
+			decl[pu] = v
+			if known {
+				h.Tag("ledger:declared-request-compared")
+			}
+			if !ok {
+				h.Fail("C05:ledger-drift:pod-request", "reservation %d records assigned pod %d with requests %v but the declared pod object (max(sum containers, init) + spec.overhead) requests %v",
+					u, c05UID(pu), rec, v)
+			}
+		}
 		for d := 0; d < c05D; d++ {
 			var sum int64
 			if c05HasName(ri, d) {
-				for _, pr := range ri.AssignedPods {
-					sum += c05Val(d, pr.Requests)
+				for pu := range ri.AssignedPods {
+					sum += decl[pu][d]
 				}
 			}
 			if got := c05Val(d, ri.Allocated); got != sum {
@@ -424,6 +569,7 @@ func c05GenPod(r *vRand, uid int) c05Pod {
 	if p.req == [c05D]int64{-1, -1, -1} {
 		p.req[0] = c05Amount(r, 0, false)
 	}
+	p.ovh = c05GenOvh(r, p.req)
 	return p
 }
 
@@ -549,6 +695,7 @@ func TestVerifC05Cache(t *testing.T) {
 	n := h.N(1500, 40000)
 	for idx := 0; idx < n; idx++ {
 		r := h.Begin(idx)
+		c05DeclReset(h) // round 9: registry of the pod objects declared in this case
 		if r == nil {
 			continue
 		}
@@ -859,8 +1006,9 @@ func TestVerifC05Cache(t *testing.T) {
 							continue
 						}
 						var sum int64
-						for _, pr := range ri.AssignedPods {
-							sum += c05Val(d, pr.Requests)
+						for pu, pr := range ri.AssignedPods { // round 9: the DECLARED requests (incl. spec.overhead)
+							v, _, _ := c05DeclaredFor(h, c05UID(pu), c05RecordedReq(pr))
+							sum += v[d]
 						}
 						used := sum - pre[d]
 						if used < 0 {
@@ -906,7 +1054,7 @@ func TestVerifC05Cache(t *testing.T) {
 		h.Tag(fmt.Sprintf("steps:%d", steps/8*8))
 		h.End()
 	}
-	h.Close("one history (4-22 ops, thorough up to 60) over <=4 reservations on 3 nodes and <=6 pods with non-round cpu/memory/scalar amounts: " +
+	h.Close("one history (4-22 ops, thorough up to 60) over <=4 reservations on 3 nodes and <=6 pods with non-round cpu/memory/scalar amounts (~30% of the pods declare part of the request as spec.overhead; the request = containers + overhead is read from the declared object): " +
 		"reservation add/update/delete through the event handlers and the raw cache methods (node fixed once set; phase, deletion, " +
 		"allocate-once, policy, restricted options, allocatable, inner reserved, owners edited), pod assume/forget/add/update/delete " +
 		"raw and through the pod informer handler (reservation-allocated annotation, terminated / unassigned pods, unknown uids, duplicates, empty requests), " +
@@ -1166,6 +1314,7 @@ func TestVerifC05Match(t *testing.T) {
 	n := h.N(3000, 60000)
 	for idx := 0; idx < n; idx++ {
 		r := h.Begin(idx)
+		c05DeclReset(h) // round 9: registry of the pod objects declared in this case
 		if r == nil {
 			continue
 		}
